@@ -92,6 +92,36 @@ impl Session {
         }
     }
 
+    /// the paths that carry a whiteout marker in the write layer (decoded with the name table; Level-B binding)
+    fn markers_json(&self) -> Value {
+        let mut out: Vec<Vec<String>> = vec![];
+        if let Some(l0) = self.w.layers.get(0) {
+            if let Ok(wo) = l0.root.join(".whiteout") {
+                let mut stack = vec![(wo, Vec::<String>::new())];
+                while let Some((d, pre)) = stack.pop() {
+                    let kids = match guard(|| d.read_dir().map(|it| it.collect::<Vec<_>>())) {
+                        Ok(Ok(k)) => k,
+                        _ => continue,
+                    };
+                    for k in kids {
+                        let name = k.filename();
+                        let isdir = matches!(guard(|| k.is_dir()), Ok(Ok(true)));
+                        if isdir {
+                            let mut p = pre.clone();
+                            p.push(self.cx.names.abs_name(&name));
+                            stack.push((k, p));
+                        } else if let Some(stem) = name.strip_suffix("_wo") {
+                            let mut p = pre.clone();
+                            p.push(self.cx.names.abs_name(stem));
+                            out.push(p);
+                        }
+                    }
+                }
+            }
+        }
+        out.sort();
+        json!(out)
+    }
     fn layers_json(&self) -> Value {
         Value::Array(self.w.layers.iter().map(|l| raw_snapshot(&l.root, &self.cx, true)).collect())
     }
@@ -111,6 +141,7 @@ impl Session {
             "names":self.cx.names.id,"b":self.cx.b,"universe":self.universe,"obs":obs});
         if !self.w.layers.is_empty() && !self.light {
             e["layers"] = self.layers_json();
+            e["wo"] = self.markers_json();
         }
         if let (Some(u), false) = (&self.w.under, self.light) {
             e["prefix"] = json!(u.prefix);
@@ -191,6 +222,7 @@ impl Session {
         e["obs"] = obs;
         if !self.w.layers.is_empty() && full {
             e["layers"] = self.layers_json();
+            e["wo"] = self.markers_json();
             e["calls"] = Value::Array(calls);
             e["ocalls"] = Value::Array(ocalls);
             e["opened"] = Value::Array(opened);
